@@ -41,6 +41,7 @@ def _walk_rule(ctx, comp):
     treemodel.report(ctx, "C20/WALK", treemodel.explore_walk,
                      "walk returns the matching components exactly once, in pre-order",
                      wk.loc(), 400)
+    _walk_parsed(ctx, comp, wk)
     # subclasses that override the traversal are not exercised by the trees
     covered = {q for q, _ in treemodel.KINDS} | {q for q, _ in treemodel.ZONE_TREE[1]}
     for sc in ctx.model.subclasses(comp):
@@ -48,6 +49,46 @@ def _walk_rule(ctx, comp):
             if meth in sc.methods and sc.qualname not in covered:
                 raise AnalysisError(f"{sc.qualname} overrides {meth}: add it to the abstract "
                                     f"trees of sa/treemodel.py")
+
+
+PARSED_TREES = [
+    ("lower-case text with an unknown component",
+     "begin:x-thing\nbegin:vevent\nsummary:a\nbegin:valarm\nend:valarm\nend:vevent\nbegin:x-other\nend:x-other\nend:x-thing\n",
+     [("x-thing", 1), ("X-THING", 1), ("vevent", 1), ("VEVENT", 1), ("valarm", 1), ("X-Other", 1), ("vtodo", 0)], 4),
+    ("upper-case calendar", "BEGIN:VCALENDAR\r\nBEGIN:VEVENT\r\nEND:VEVENT\r\nBEGIN:X-THING\r\nEND:X-THING\r\nEND:VCALENDAR\r\n",
+     [("vcalendar", 1), ("x-thing", 1), ("VEVENT", 1)], 3),
+]
+
+
+def _walk_parsed(ctx, comp, wk):
+    """The same laws on trees that come out of the parser (whole parser interpreted, E7): names
+    are matched case-insensitively whatever the letter case of the text was, unknown components
+    included."""
+    from ..strmodel import TextInterp
+    from ..absint import ClassVal, AbsRaise, Unsupported
+    bad = []
+    n = 0
+    for label, text, asks, total in PARSED_TREES:
+        it = TextInterp(ctx.model)
+        try:
+            root = it.run(it.getattr(ClassVal(comp), "from_ical"), [text], {})
+            allc = it.run(it.getattr(root, "walk"), [], {})
+            n += 1
+            if len(allc) != total:
+                bad.append((label, f"walk() returns {len(allc)} components, the text has {total}"))
+            for name, want in asks:
+                got = it.run(it.getattr(root, "walk"), [name], {})
+                n += 1
+                if len(got) != want:
+                    bad.append((label, f"walk({name!r}) returns {len(got)} component(s), expected {want}"))
+        except AbsRaise as e:
+            bad.append((label, f"raises {e.cls_name}"))
+        except Unsupported as e:
+            raise AnalysisError(f"walk on a parsed tree leaves the abstract interface ({label}): {e}")
+    ctx.check(not bad, "C20/WALK", "walk by name on parsed trees (any letter case, unknown components)",
+              f"{bad[0][0] if bad else ''}: {bad[0][1] if bad else ''} [{len(bad)} of {n} questions]",
+              wk.loc(), witness={"text": bad[0][0]} if bad else None,
+              detail=f"{n} questions on {len(PARSED_TREES)} parsed trees")
 
 
 def _accessors(ctx):
